@@ -44,6 +44,8 @@ def serialize_json(
     referenced = [
         child for element in elements for child in get_children(element)
     ]
+    for definition in (definitions or {}).values():
+        referenced += get_children(definition)
     serialize = partial(
         _serialize_element, object_refs=True, definitions=definitions
     )
